@@ -108,7 +108,7 @@ def values(rng, thorough):
     return out
 
 
-AD_FORMS = lambda rng: [None, 1, -1, [0, 2], [True, False, True], slice(None, -1), slice(0, 2), np.asarray([0, 1]), "jnp"]
+AD_FORMS = lambda rng: [None, 1, -1, 0, [0, 2], [True, False, True], slice(None, -1), slice(0, 2), np.asarray([0, 1]), "jnp"]      # 0: a legal index that is falsy
 
 
 def kernels(rng, thorough):
